@@ -80,8 +80,8 @@ type Party struct {
 	freezeAtStep int
 }
 
-func (p *Party) Done() bool  { p.sim.mu.Lock(); defer p.sim.mu.Unlock(); return p.done }
-func (p *Party) Err() error  { p.sim.mu.Lock(); defer p.sim.mu.Unlock(); return p.err }
+func (p *Party) Done() bool   { p.sim.mu.Lock(); defer p.sim.mu.Unlock(); return p.done }
+func (p *Party) Err() error   { p.sim.mu.Lock(); defer p.sim.mu.Unlock(); return p.err }
 func (p *Party) Frozen() bool { p.sim.mu.Lock(); defer p.sim.mu.Unlock(); return p.frozen }
 
 type flip struct {
@@ -106,18 +106,18 @@ type Pipe struct {
 	Accepted  int64 // bytes taken from writers so far
 	Delivered int64 // bytes handed to readers so far
 
-	cutAt        int64 // -1: none. When Accepted reaches cutAt the connection is lost.
-	flips        []flip
-	freezeRdAt   int64 // -1: none. When Delivered reaches it the reading party is frozen.
-	NonParking   bool
-	wParty       *Party
-	rParty       *Party
-	peer         *Pipe // opposite direction of the same connection
-	Tap          func(b []byte) // sees every byte as accepted (after flips), i.e. the wire content
-	sim          *Sim
-	FlipsFired   int
-	CutFired     bool
-	FreezeFired  bool
+	cutAt       int64 // -1: none. When Accepted reaches cutAt the connection is lost.
+	flips       []flip
+	freezeRdAt  int64 // -1: none. When Delivered reaches it the reading party is frozen.
+	NonParking  bool
+	wParty      *Party
+	rParty      *Party
+	peer        *Pipe          // opposite direction of the same connection
+	Tap         func(b []byte) // sees every byte as accepted (after flips), i.e. the wire content
+	sim         *Sim
+	FlipsFired  int
+	CutFired    bool
+	FreezeFired bool
 }
 
 type Outcome int
@@ -901,3 +901,11 @@ var _ = errors.New
 // the direction e reads from when the real peer endpoint is not at hand). It
 // must not be used for I/O.
 func PeerView(e *End) *End { return &End{sim: e.sim, r: e.w, w: e.r} }
+
+// Available reports how many bytes can be read from the endpoint right now
+// without parking (a middlebox uses it to merge what has already arrived).
+func (e *End) Available() int {
+	e.sim.mu.Lock()
+	defer e.sim.mu.Unlock()
+	return len(e.r.buf)
+}
